@@ -369,6 +369,8 @@ def tail_start(body):
             i += 1
         last_stmt_start = start
         last_ended_semicolon = ended_semi
+    if last_stmt_start is not None and last_ended_semicolon and body[last_stmt_start].kind == "ident" and body[last_stmt_start].text == "return":
+        return last_stmt_start      # `..; return e;` as the last statement is the tail written with `return`: //@tail goes before it
     if last_stmt_start is None or last_ended_semicolon:
         return n - 1
     if body[last_stmt_start].kind == "ident" and body[last_stmt_start].text in ("for", "while"):
